@@ -706,7 +706,11 @@ static bool observers(StepCtx& c) {
         if (!sys_included(n, SA, Sys(1, Con(a, Q(-b), ref::EQ)))) { violation(key("C03.definite", nm[k]), "reported equality " + str(*i) + " does not hold on the element; " + ctxA); ok = false; }
       }
     } else if (k == 4) (void) A.is_empty();
-    else if (k == 5) { checked(); if (!A.OK()) { violation(key("C03.sound", "OK"), "OK() is false; " + ctxA); ok = false; } }
+    else if (k == 5) {
+      // OK() re-closes a copy of a matrix marked closed and compares: with rounded or saturating bounds the closure is not a
+      // fixpoint of itself, so a false answer is not evidence against C03 (which speaks about point sets only) - it is counted.
+      checked(); bool inexact_T = g.ti.bits != 0 || g.ti.fdigits != 0;
+      if (!A.OK()) { if (inexact_T) hx::count("ok_false.inexact_T"); else { violation(key("C03.sound", "OK"), "OK() is false; " + ctxA); ok = false; } } }
     else A.misc_observers();
   })) return false;
   if (!ok) return false;
